@@ -75,6 +75,9 @@ type Program struct {
 	// MsgCtx: published messages carry a context of their own: already cancelled, cancelled a few scheduling steps after
 	// Publish was called, or live. GoChannel documents no dependence on it: deliveries get the subscription's context.
 	MsgCtx bool
+	// SharedDecorator: all decorated subscriptions of the run (and all levels of one stack) are made by ONE
+	// SubscriberDecorator value instead of a fresh one per subscriber
+	SharedDecorator bool
 }
 
 type pubCtxKey struct{}
@@ -169,10 +172,11 @@ func (s *SubRec) Dels() []Delivery {
 
 // Run is the recorded execution.
 type Run struct {
-	Prog Program
-	ID   string
-	PS   *gochannel.GoChannel
-	Sub  message.Subscriber // PS possibly wrapped per subscription
+	sharedDec message.SubscriberDecorator
+	Prog      Program
+	ID        string
+	PS        *gochannel.GoChannel
+	Sub       message.Subscriber // PS possibly wrapped per subscription
 
 	mu                sync.Mutex
 	Pubs              []*PubRec
@@ -343,7 +347,16 @@ func (r *Run) subscribe(i int, sp SubSpec, seed uint64) {
 	s.Cancel = cancel
 	var sub message.Subscriber = r.PS
 	for d := 0; d < sp.Decorators; d++ {
-		dec, _ := message.MessageTransformSubscriberDecorator(func(m *message.Message) {})(sub)
+		mk := message.MessageTransformSubscriberDecorator(func(m *message.Message) {})
+		if r.Prog.SharedDecorator {
+			r.mu.Lock()
+			if r.sharedDec == nil {
+				r.sharedDec = mk
+			}
+			mk = r.sharedDec
+			r.mu.Unlock()
+		}
+		dec, _ := mk(sub)
 		sub = dec
 	}
 	if sp.Decorators > 0 {
